@@ -2,7 +2,7 @@
 # tools_seed_eval.sh <seed dir> <check ids...> : applies patch.diff to /repo, confirms demo fails with it and
 # passes without, runs the given checks (quick), reverts. Prints a one-line verdict per check.
 D="$1"; shift
-cd /repo && git stash -q 2>/dev/null; git checkout -q -- . 
+cd /repo && git checkout -q -- .
 if ! git apply --check "$D/patch.diff" 2>/dev/null; then echo "PATCH DOES NOT APPLY to current /repo HEAD"; exit 2; fi
 PYTHONPATH=/repo /venv/bin/python "$D/demo.py" > /tmp/demo_clean.log 2>&1; echo "demo on clean tree: rc=$?"
 git apply "$D/patch.diff"
